@@ -603,18 +603,25 @@ def evaluate_case(case, rc, res, err, margin=None):
             if not o.get("restore"): S["permr"] = r["permr"]
     # attribution of the known defect F1: the factorization that produced the factors involved was run with the
     # supernodes' subscript lists stored in an order different from their numbering (observed by the fixupL wrapper)
-    f1_ops = set(i for i, r in enumerate(res) if r.get("f1") == 1 and ops[i]["op"] in ("first", "refact"))
-    if f1_ops:
-        st["f1_order_seen"] = len(f1_ops)
+    # (both attributions need at least two threads: a one-thread failure is never explained away by them)
+    f1_ops = set(i for i, r in enumerate(res) if r.get("f1") == 1 and ops[i]["op"] in ("first", "refact") and ops[i].get("nprocs", 1) > 1)
+    # attribution of the user-workspace / threads defect (findings/C08-user-workspace-thread-overlap.md): the WorkInit/WorkFree
+    # wrappers of the harness saw a thread being handed work arrays that another thread was still using
+    ws_ops = set(i for i, r in enumerate(res) if r.get("wso") == 1 and ops[i]["op"] in ("first", "refact") and ops[i].get("nprocs", 1) > 1
+                 and ops[i].get("lwork", 0) > 0)
+    if f1_ops or ws_ops:
+        st["f1_order_seen"] = len(f1_ops); st["ws_overlap_seen"] = len(ws_ops)
         last_factor = {}
         cur = {}
         for i, o in enumerate(ops):
             if o["op"] in ("first", "refact"): cur[o["slot"]] = i
             last_factor[i] = cur.get(o.get("slot"))
+        numeric = ("stale_or_wrong_factors", "nnz_header", "wrong_solution", "wrong_solution_factored", "abort_or_crash", "nsuper_header",
+                   "spurious_singular", "usepr_not_honoured", "usepr_no_fallback", "bad_info")
         for f in fails:
-            if last_factor.get(f.op) in f1_ops and f.key.get("kind") in ("stale_or_wrong_factors", "nnz_header", "wrong_solution", "wrong_solution_factored",
-                                                                         "abort_or_crash", "nsuper_header"):
-                f.key = {"kind": "fixupL_order"}
+            if f.key.get("kind") not in numeric: continue
+            if last_factor.get(f.op) in f1_ops: f.key = {"kind": "fixupL_order"}
+            elif last_factor.get(f.op) in ws_ops: f.key = {"kind": "user_workspace_thread_overlap"}
     return fails, st
 
 
